@@ -142,5 +142,56 @@ theorem LInv.slbCore {s : St} (hs : LInv s) (e0 : Nat) (p : Pt) (d : Nat) (b_0 :
     · simp at h
     · omega
 
+set_option maxHeartbeats 4000000 in
+theorem LInv.slbCore_vb {s : St} (hs : LInv s) (hvb : s.VBound) (e0 : Nat) (p : Pt) (d : Nat) (b_0 : e0 < s.nE)
+    (hnF : s.nF = 1) (hend : s.nxt e0 ≠ s.rv e0) :
+    (St.slbCore s e0 (s.rv e0) (s.nxt e0) (s.prv (s.rv e0)) (s.org (s.rv e0)) (s.fc e0) p d).VBound := by
+  have ev0 := hs.even
+  have E0 := hs.edge e0 b_0
+  have b_1 := hs.rv_lt b_0
+  have E1 := hs.edge _ b_1
+  have b_2 : s.nxt e0 < s.nE := E0.2.1
+  have b_3 : s.prv (s.rv e0) < s.nE := E1.2.2.1
+  have E2 := hs.edge _ b_2
+  have E3 := hs.edge _ b_3
+  have hfc : s.fc e0 = 0 := by have := E0.2.2.2.1; omega
+  have f0 : s.fc (s.rv e0) = 0 := by have := E1.2.2.2.1; omega
+  have f3 : s.fc (s.prv (s.rv e0)) = 0 := by have := E3.2.2.2.1; omega
+  have r0 := hs.rv_rv b_0
+  have rne := hs.rv_ne b_0
+  have a5 : s.prv (s.nxt e0) = e0 := E0.2.2.2.2.2.1
+  have a4 : s.nxt (s.prv (s.rv e0)) = s.rv e0 := E1.2.2.2.2.2.2.1
+  have f1 : s.fc (s.nxt e0) = 0 := by rw [E0.2.2.2.2.2.2.2.1]; exact hfc
+  have l2 := hs.rv_lt b_2
+  have l3 := hs.rv_lt b_3
+  have r2 := hs.rv_rv b_2
+  have r3 := hs.rv_rv b_3
+  generalize hrv : s.rv e0 = rv0 at *
+  generalize hen : s.nxt e0 = en at *
+  generalize hrp : s.prv rv0 = rp at *
+  have dd : e0 ≠ rv0 ∧ e0 ≠ en ∧ e0 ≠ rp ∧ rv0 ≠ en ∧ rv0 ≠ rp ∧ en ≠ rp := by
+    unfold EdgeOK dst at *
+    refine ⟨Ne.symm rne, ?_, ?_, Ne.symm hend, ?_, ?_⟩
+    all_goals grind
+  obtain ⟨d_0_1, d_0_2, d_0_3, d_1_2, d_1_3, d_2_3⟩ := dd
+  have n_0 : ∀ k, s.nE + k ≠ e0 := by intro k; omega
+  have m_0 : s.nE ≠ e0 := by omega
+  have u_0 : ∀ k, e0 < s.nE + k := by intro k; omega
+  have n_1 : ∀ k, s.nE + k ≠ rv0 := by intro k; omega
+  have m_1 : s.nE ≠ rv0 := by omega
+  have u_1 : ∀ k, rv0 < s.nE + k := by intro k; omega
+  have n_2 : ∀ k, s.nE + k ≠ en := by intro k; omega
+  have m_2 : s.nE ≠ en := by omega
+  have u_2 : ∀ k, en < s.nE + k := by intro k; omega
+  have n_3 : ∀ k, s.nE + k ≠ rp := by intro k; omega
+  have m_3 : s.nE ≠ rp := by omega
+  have u_3 : ∀ k, rp < s.nE + k := by intro k; omega
+  have szE : (s.slbCore e0 rv0 en rp (s.org rv0) (s.fc e0) p d).nE = s.nE + 2 := by unfold St.slbCore; evw [b_0, b_1, b_2, b_3, d_0_1, d_0_1.symm, d_0_2, d_0_2.symm, d_0_3, d_0_3.symm, d_1_2, d_1_2.symm, d_1_3, d_1_3.symm, d_2_3, d_2_3.symm, n_0, (n_0 _).symm, m_0, m_0.symm, u_0, n_1, (n_1 _).symm, m_1, m_1.symm, u_1, n_2, (n_2 _).symm, m_2, m_2.symm, u_2, n_3, (n_3 _).symm, m_3, m_3.symm, u_3]
+  unfold St.slbCore at szE ⊢
+  refine vbound_run s _ hvb (s.nE + 2) szE (by omega) ?_
+  intro i hi
+  simp only [List.mem_cons, List.not_mem_nil, or_false] at hi
+  rcases hi with rfl | rfl | rfl | rfl | rfl | rfl | rfl | rfl <;> simp only [Instr.argOK] <;> omega
+
 end St
 end Spade
